@@ -82,7 +82,9 @@ Fixpoint chain_elems (t : tree) : list tree :=
 (* C06-K1: the last element of an else-chain is a conditional (no final else):
    when no condition holds nothing is pushed.
    C06-K4: an element before the end of an else-chain is not a conditional: its
-   value stays on the operand stack under the rest of the chain. *)
+   value stays on the operand stack under the rest of the chain.
+   Both are read at the HEAD of a chain (an ElseJump node that is not itself an
+   operand of an ElseJump): a nested ElseJump is a segment of its head's chain. *)
 Definition chain_no_else_node (t : tree) : bool :=
   match kind_of (t_def t) with
   | KElse => match rev (chain_elems t) with e :: _ => is_cond e | [] => false end
@@ -93,8 +95,16 @@ Definition chain_early_else_node (t : tree) : bool :=
   | KElse => match rev (chain_elems t) with _ :: before => existsb (fun e => negb (is_cond e)) before | [] => false end
   | _ => false
   end.
-Definition has_chain_no_else : tree -> bool := anywhere chain_no_else_node.
-Definition has_chain_early_else : tree -> bool := anywhere chain_early_else_node.
+
+(* [f] at every chain head; [under]: the node is an operand of an ElseJump *)
+Fixpoint at_heads (f : tree -> bool) (under : bool) (t : tree) : bool :=
+  match t with
+  | T _ d l r =>
+    let here := match kind_of d with KElse => true | _ => false end in
+    (negb under && f t) || opt_b (at_heads f here) l || opt_b (at_heads f here) r
+  end.
+Definition has_chain_no_else : tree -> bool := at_heads chain_no_else_node false.
+Definition has_chain_early_else : tree -> bool := at_heads chain_early_else_node false.
 
 (* C06-K3: `^~` where an operand of the enclosing body is still pending (or a
    side effect is open): the body is re-entered with that operand stacked.
